@@ -232,7 +232,10 @@ ADDENDA = {
     "C02": "Decomposition of mixed / transformed composites precedes curve conversion; the generated .notdef follows the outline type's contour direction. No package code edits the outline fields of a compiled glyph (empty who-may-write set, reviewed flag bits only); option overrides of compileOutlines are a reviewed table.",
     "C13": "The designspace's skip list has the last word in the lib of a generated instance; the union runs over every UFO. include / decomposeNested reach the decomposing pen as the untouched parameters.",
 }
+ADDENDA2 = {'C02': 'SortContours puts back a permutation of all contours; the reversing filter passes over contour-less glyphs only.', 'C03': "Only the production-name builder reads a glyph's primary code point (who-may-read).", 'C04': 'xAvgCharWidth is recalculated by fontTools from the font being built (after hmtx); final glyph names are unique.', 'C05': "The pair list handed to the lookup builders is the collector's result, unfiltered; kern writer objects keep no per-font state.", 'C06': 'Conflict graph symmetric and complete; a feature is dropped only when every lookup list written into it is empty; an existing mark class is reused only under field-by-field equality; no argument-dependent result is memoised in the context.', 'C08': 'One kind of bounds (exact / control) per measuring function; every field of the working glyph copy is copied whole.', 'C09': "The default-source flag is 'index == instantiator.default_source_idx'; the decomposition helper draws every component it removes; filter lists filled through helpers are followed.", 'C10': 'Composites with differing 2x2 are decomposed on the evidence of all masters; every source gets a unique name; per-master accumulators; variable anchors recorded for every source under the anchor-name test only.', 'C11': 'An explicit useProductionNames reaches the renaming step untouched; every master (sparse ones included) is post-processed.', 'C13': 'Who may call decomposeCompositeGlyph, and with which glyph set (reviewed table).', 'C14': 'After components were removed the verdict is not a comparison of contour counts; containers kept on a filter object are followed into callees that fill them; ChainMap views are modelled by the ownership engine.', 'C15': 'No built-in decomposition before the pre-filters; replay / anchors / advance of the transformations filter are unconditional; filters keep no state between calls.', 'C16': 'Derived OS/2 sub / superscript fallbacks read the resolved sibling field; head.created is the converted openTypeHeadCreated; all()/any() elements count as truthiness tests; values returned by getAttrWithFallback are followed into helpers that mutate them.', 'C17': 'The insertion marker is matched anchored at the start of the comment; after a mark-class name clash the renamed class is used; a glyph class defined directly gets a name checked against existing ones.', 'C18': 'getOpenTypeCategories hands out the categories as loaded; variable caret / cursive anchors are recorded for every source.', 'C19': 'Rule substitutions are recorded iff designspaceLib.evaluateRule holds; after extractGlyph nothing but the code points is written.', 'C20': 'addLookupReferences covers every language handed in; kern and dist partition the scripts with one and the same set.'}
 for _k, _v in ADDENDA.items():
+    CHECKS[_k]["text"] += " " + _v
+for _k, _v in ADDENDA2.items():
     CHECKS[_k]["text"] += " " + _v
 
 _TODO = "check not built yet in this session (static rules designed in DESIGN.md §5; will be claimed when the rule set is armed)"
